@@ -50,6 +50,26 @@ def _call(IB, E, ad, c, ne, te, nd, nel, fv=None):
     return IB.match_plasma_neutrality(ad, el, [other], ne, te, **kw)
 
 
+def _front(IB, E, ad, c, fr, fv, ne, te, nd, nel, eq=None):
+    """the interpolator builders / equilibrium-mapped variants; -> {charge: callable}"""
+    el = getattr(E, c["element"])
+    kw = dict(tcx_donor=E.hydrogen, tcx_donor_n=nd, tcx_donor_charge=0) if c["donor"] == "shared" else {}
+    dim = "1d" if fr != "interpolators2d" else "2d"
+    if fr == "equilibrium_map3d":
+        if c["entry"] == "fractional_abundance":
+            return IB.equilibrium_map3d_fractional(ad, el, eq, fv, ne, te, **kw)
+        if c["entry"] == "from_elementdensity":
+            return IB.equilibrium_map3d_from_elementdensity(ad, el, eq, fv, nel, ne, te, **kw)
+        other = IB.from_elementdensity(ad, E.lithium, nel, ne, te, free_variable=fv)
+        return IB.equilibrium_map3d_match_plasma_neutrality(ad, el, eq, fv, [other], ne, te, **kw)
+    if c["entry"] == "fractional_abundance":
+        return getattr(IB, f"interpolators{dim}_fractional")(ad, el, fv, ne, te, **kw)
+    if c["entry"] == "from_elementdensity":
+        return getattr(IB, f"interpolators{dim}_from_elementdensity")(ad, el, fv, nel, ne, te, **kw)
+    other = getattr(IB, f"interpolators{dim}_from_elementdensity")(ad, E.lithium, fv, nel, ne, te)
+    return getattr(IB, f"interpolators{dim}_match_plasma_neutrality")(ad, el, fv, [other], ne, te, **kw)
+
+
 def _vec(res, i):
     import numpy as np
     return [float(np.asarray(res[z]).ravel()[i]) if np.ndim(res[z]) else float(res[z]) for z in sorted(res)]
@@ -57,7 +77,7 @@ def _vec(res, i):
 
 def replay(rec, ctx):
     import numpy as np
-    from raysect.core.math.function.float import Interpolator1DArray
+    from raysect.core.math.function.float import Interpolator1DArray, Interpolator2DArray
     from cherab.core.atomic import elements as E
     from cherab.tools.plasmas import ionisation_balance as IB
     ad = _mock()
@@ -67,15 +87,40 @@ def replay(rec, ctx):
     ne, te, nd, nel = np.array(NE), np.array(TE), np.array(ND), np.array(NEL)
     fv = np.array([0.0, 1.0, 2.0])
     f1 = [Interpolator1DArray(fv, np.array(a), "linear", "none", 0.0) for a in (NE, TE, ND, NEL)]
+    # 2-D profiles on a 3 x 2 lattice: the second coordinate scales every profile by 1 / 1.25
+    fv2 = (np.array([0.0, 1.0, 2.0]), np.array([0.0, 1.0]))
+    SC = (1.0, 1.25)
+    f2 = [Interpolator2DArray(fv2[0], fv2[1], np.array([[x * q for q in SC] for x in a]), "linear", "none", 0.0, 0.0) for a in (NE, TE, ND, NEL)]
+    # equilibrium-mapped: profiles over normalised flux; (4,0,0), (5,0,0), (6,0,0) lie on psi_n = 0, 1/5, 4/5 of the synthetic equilibrium
+    psin = np.array([0.0, 0.2, 0.8])
+    fp = [Interpolator1DArray(psin, np.array(a), "linear", "none", 0.0) for a in (NE, TE, ND, NEL)]
+    eqpts = [(4.0, 0.0, 0.0), (5.0, 0.0, 0.0), (6.0, 0.0, 0.0)]
     viol = []
     for i, c in enumerate(calls):
-        name = f"{c['entry']}[{c['rep']},{'donor' if c['donor'] == 'shared' else 'no-donor'}]"
+        fr = c.get("front", "direct")
+        name = f"{'' if fr == 'direct' else fr + '_'}{c['entry']}[{c['rep']},{'donor' if c['donor'] == 'shared' else 'no-donor'}]"
+        scale2 = None
         prev = " after " + ", ".join(f"{x['entry']}[{x['rep']}]" for x in calls[:i]) if i else ""
 
         def bad(what, detail):
             viol.append({"sig": f"session:{name}:{what}", "detail": f"{detail} | profiles {rec.get('profile')} | call {i + 1} of {json.dumps(calls)[:400]}"})
         try:
-            if c["rep"] == "ndarray":
+            if fr == "interpolators1d":
+                res = _front(IB, E, ad, c, fr, fv, f1[0], f1[1], f1[2], f1[3])
+                got = [[float(res[z](float(fv[k]))) for z in sorted(res)] for k in range(3)]
+            elif fr == "interpolators2d":
+                res = _front(IB, E, ad, c, fr, fv2, f2[0], f2[1], f2[2], f2[3])
+                got = [[float(res[z](float(fv2[0][k]), 1.0)) for z in sorted(res)] for k in range(3)]
+                scale2 = SC[1]
+            elif fr == "equilibrium_map3d":
+                from . import c12
+                res = _front(IB, E, ad, c, fr, psin, fp[0], fp[1], fp[2], fp[3], eq=c12.equilibrium(False, 1, 1))
+                got = [[float(res[z](*eqpts[k])) for z in sorted(res)] for k in range(3)]
+            elif c["rep"] == "function2d":
+                res = _call(IB, E, ad, c, f2[0], f2[1], f2[2], f2[3], fv=fv2)
+                got = [[float(np.asarray(res[z])[k, 1]) for z in sorted(res)] for k in range(3)]
+                scale2 = SC[1]
+            elif c["rep"] == "ndarray":
                 got = [_vec(_call(IB, E, ad, c, ne, te, nd, nel), k) for k in range(3)]
             elif c["rep"] == "function1d":
                 res = _call(IB, E, ad, c, f1[0], f1[1], f1[2], f1[3], fv=fv)
@@ -89,7 +134,8 @@ def replay(rec, ctx):
             if arr.tolist() != orig:
                 bad("modifies-the-callers-array", f"{nm}: {arr.tolist()} vs {orig}")
         # the same call on its own, fresh scalar inputs point by point
-        ref = [_vec(_call(IB, E, ad, c, NE[k], TE[k], ND[k], NEL[k]), 0) for k in range(3)]
+        q = scale2 or 1.0
+        ref = [_vec(_call(IB, E, ad, c, NE[k] * q, TE[k] * q, ND[k] * q, NEL[k] * q), 0) for k in range(3)]
         scale = 1.0 if c["entry"] == "fractional_abundance" else max(max(r) for r in ref)
         if any(abs(a - b) > 1e-7 * scale for g, r in zip(got, ref) for a, b in zip(g, r)):
             bad("result-depends-on-earlier-calls-or-representation", f"{got} vs the same call on fresh scalar inputs {ref}{prev}")
@@ -112,11 +158,17 @@ def run_part(v):
     core.tlc_must_pass(res, "IonSession")
     v.add_tlc(res, "IonSession")
     seqs = [r for r in res.records if "calls" in r and len(r["calls"]) == depth]
-    if v.tier == "thorough" and len(seqs) > 12000:
+    cap = 6000 if v.tier == "quick" else 30000
+    if len(seqs) > cap:
         import random
-        seqs = random.Random(v.seed).sample(seqs, 12000)
-    if len(seqs) < 300:
-        raise core.MachineryError("vacuity: too few call sequences")
+        seqs = random.Random(v.seed).sample(seqs, cap)
+    fronts = {}
+    for r in seqs:
+        for c in r["calls"]:
+            fronts[c["front"]] = fronts.get(c["front"], 0) + 1
+    if len(seqs) < 300 or set(fronts) != {"direct", "interpolators1d", "interpolators2d", "equilibrium_map3d"}:
+        raise core.MachineryError(f"vacuity: too few call sequences / front-ends missing {fronts}")
+    v.notes["session_calls_per_front_end"] = fronts
     out = core.fan_out("mbt.c09_session", "replay", seqs, None)
     for r, vs in zip(seqs, out):
         for x in vs:
